@@ -26,11 +26,11 @@ def BddSideOK (S : Int → MAsg → Bool) (L : Nat → Nat) (u : Nat) (umap : Li
     ∃ (x : Int) (r : Int), umap.lookup x.natAbs = some r ∧ k = (if x > 0 then r else -r) ∧ x ≠ 0 ∧
       var.level < L x.natAbs ∧ ∀ α, α var.level = i → S x α = S (u : Int) α
 
-theorem lookup_filter_ne (u x : Nat) (hx : x ≠ u) :
+theorem mLookup_filter_ne (u x : Nat) (hx : x ≠ u) :
     ∀ l : List (Nat × Int), (l.filter (fun p => p.1 ≠ u)).lookup x = l.lookup x
   | [] => rfl
   | (a, b) :: rest => by
-    have ih := lookup_filter_ne u x hx rest
+    have ih := mLookup_filter_ne u x hx rest
     by_cases ha : a = u
     · have hxa : (x == a) = false := by rw [ha]; simpa using hx
       have hf : ((a, b) :: rest).filter (fun p => p.1 ≠ u) = rest.filter (fun p => p.1 ≠ u) := by
@@ -49,7 +49,81 @@ theorem lookup_cons_filter (u : Nat) (r : Int) (umap : List (Nat × Int)) (x : N
   · subst hx; simp [List.lookup_cons]
   · have h1 : (x == u) = false := by simpa using hx
     simp only [List.lookup_cons, h1, hx, if_false]
-    exact lookup_filter_ne u x hx umap
+    exact mLookup_filter_ne u x hx umap
+
+/-- one iteration, MDD side: `find_or_add` of the mapped cofactors extends a sound `umap` -/
+theorem umap_step (S : Int → MAsg → Bool) (L : Nat → Nat)
+    (hSneg : ∀ x α, x ≠ 0 → S (-x) α = !S x α)
+    (mdd : MddMgr) (umap : List (Nat × Int)) (h : MInv mdd) (hU : UmapOK S L mdd umap)
+    (u : Nat) (var : MVar) (succs : List Int) (hB : BddSideOK S L u umap var succs)
+    (r : Int) (mdd1 : MddMgr) (hfoa : mFindOrAdd (var.level : Int) succs mdd = (.ok r, mdd1)) :
+    MInv mdd1 ∧ MExt mdd.tbl mdd1.tbl ∧
+    UmapOK S L mdd1 ((u, r) :: umap.filter (fun p => p.1 ≠ u)) := by
+  obtain ⟨hLu, hsuccs⟩ := hB
+  have hW := h.wf.toMWF
+  -- precondition of find_or_add: every successor is below the level of the variable
+  have hlt : ∀ k ∈ succs, ((var.level : Nat) : Int).toNat < mdd.tbl.levelOf k := by
+    intro k hk
+    obtain ⟨i, hi, hki⟩ := List.getElem_of_mem hk
+    obtain ⟨x, r', hlk, hkx, _, hlvl, _⟩ := hsuccs i k (by rw [List.getElem?_eq_getElem hi, hki])
+    obtain ⟨_, hLr, _⟩ := hU.ok _ _ hlk
+    have : mdd.tbl.levelOf k = mdd.tbl.levelOf r' := by
+      rw [hkx]; split
+      · rfl
+      · exact mdd.tbl.levelOf_neg r'
+    rw [this]
+    simp only [Int.toNat_natCast]
+    omega
+  unfold mFindOrAdd at hfoa
+  split at hfoa
+  · next hneg => omega
+  · have F := mFindOrAddCore_spec mdd h _ succs hlt r mdd1 hfoa
+    simp only [Int.toNat_natCast] at F
+    have hW1 := F.inv.wf.toMWF
+    refine ⟨F.inv, F.ext, ?_⟩
+    constructor
+    intro x rx hl
+    rw [lookup_cons_filter] at hl
+    by_cases hxu : x = u
+    · subst hxu
+      simp only [if_true, Option.some.injEq] at hl
+      subst hl
+      refine ⟨F.mem, by rw [hLu]; exact F.lvl, ?_⟩
+      intro α hα
+      have hαm : MValid mdd.tbl α := (F.ext.valid α).mpr hα
+      have hvl : var.level < mdd.tbl.nvars := by
+        -- find_or_add succeeded, so the level is a level of the manager
+        by_cases hc : var.level < mdd.tbl.nvars
+        · exact hc
+        · exfalso
+          unfold mFindOrAddCore at hfoa
+          have : mdd.tbl.nvars ≤ var.level := by omega
+          simp [this] at hfoa
+      have hidx : α var.level < succs.length := by
+        rw [F.len]; exact hαm _ hvl
+      obtain ⟨x', r', hlk, hkx, hx0, _, hS⟩ := hsuccs (α var.level) succs[α var.level]
+        (List.getElem?_eq_getElem hidx)
+      obtain ⟨hrm, _, hden⟩ := hU.ok _ _ hlk
+      rw [F.den α _ (List.getElem?_eq_getElem hidx), ← hS α rfl, hkx]
+      have hrm1 := F.ext.mem hrm
+      have hd := hden α hαm
+      rw [← denM_ext F.ext hW r' α hrm] at hd
+      split
+      · next hpos =>
+        rw [hd]
+        have : ((x'.natAbs : Nat) : Int) = x' := by omega
+        rw [this]
+      · next hnpos =>
+        rw [denM_neg mdd1.tbl hW1 r' α hrm1, hd]
+        have : x' = -((x'.natAbs : Nat) : Int) := by omega
+        rw [this, hSneg _ _ (by omega)]
+        simp
+    · simp only [hxu, if_false] at hl
+      obtain ⟨a, b, c⟩ := hU.ok x rx hl
+      refine ⟨F.ext.mem a, by rw [F.ext.levelOf a]; exact b, ?_⟩
+      intro α hα
+      rw [denM_ext F.ext hW rx α a]
+      exact c α ((F.ext.valid α).mpr hα)
 
 /-- the MDD half of `bdd_to_mdd`: if every BDD-side step delivers `BddSideOK`, the final `umap`
 maps every kept BDD node to an MDD reference with the intended meaning, and the MDD manager
@@ -84,83 +158,84 @@ theorem b2mLoop_partial (S : Int → MAsg → Bool) (L : Nat → Nat)
       split at hr
       · simp at hr
       · next var succs mb1 hside =>
-        have B := hBdd u umap mb var succs mb1 hP (hK u (by simp) (by simpa using hrm)) hside
-        obtain ⟨hP1, hLu, hsuccs⟩ := B
+        obtain ⟨hP1, hB⟩ := hBdd u umap mb var succs mb1 hP (hK u (by simp) (by simpa using hrm)) hside
         split at hr
         · simp at hr
         · next r mdd1 hfoa =>
-          have hW := h.wf.toMWF
-          -- precondition of find_or_add: every successor is below the level of the variable
-          have hlt : ∀ k ∈ succs, ((var.level : Nat) : Int).toNat < mdd.tbl.levelOf k := by
-            intro k hk
-            obtain ⟨i, hi, hki⟩ := List.getElem_of_mem hk
-            obtain ⟨x, r', hlk, hkx, _, hlvl, _⟩ := hsuccs i k (by rw [List.getElem?_eq_getElem hi, hki])
-            obtain ⟨_, hLr, _⟩ := hU.ok _ _ hlk
-            have : mdd.tbl.levelOf k = mdd.tbl.levelOf r' := by
-              rw [hkx]; split
-              · rfl
-              · exact mdd.tbl.levelOf_neg r'
-            rw [this]
-            simp only [Int.toNat_natCast]
-            omega
-          unfold mFindOrAdd at hfoa
-          split at hfoa
-          · next hneg => omega
-          · have F := mFindOrAddCore_spec mdd h _ succs hlt r mdd1 hfoa
-            simp only [Int.toNat_natCast] at F
-            have hW1 := F.inv.wf.toMWF
-            have hU1 : UmapOK S L mdd1 ((u, r) :: umap.filter (fun p => p.1 ≠ u)) := by
-              constructor
-              intro x rx hl
-              rw [lookup_cons_filter] at hl
-              by_cases hxu : x = u
-              · subst hxu
-                simp only [if_true, Option.some.injEq] at hl
-                subst hl
-                refine ⟨F.mem, by rw [hLu]; exact F.lvl, ?_⟩
-                intro α hα
-                have hαm : MValid mdd.tbl α := (F.ext.valid α).mpr hα
-                have hvl : var.level < mdd.tbl.nvars := by
-                  -- find_or_add succeeded, so the level is a level of the manager
-                  have := F.lvl
-                  have hle := mdd1.tbl.levelOf_le hW1 r
-                  by_cases hc : var.level < mdd.tbl.nvars
-                  · exact hc
-                  · exfalso
-                    unfold mFindOrAddCore at hfoa
-                    have : mdd.tbl.nvars ≤ var.level := by omega
-                    simp [this] at hfoa
-                have hidx : α var.level < succs.length := by
-                  rw [F.len]; exact hαm _ hvl
-                obtain ⟨x', r', hlk, hkx, hx0, _, hS⟩ := hsuccs (α var.level) succs[α var.level]
-                  (List.getElem?_eq_getElem hidx)
-                obtain ⟨hrm, _, hden⟩ := hU.ok _ _ hlk
-                rw [F.den α _ (List.getElem?_eq_getElem hidx), ← hS α rfl, hkx]
-                have hrm1 := F.ext.mem hrm
-                have hd := hden α hαm
-                rw [← denM_ext F.ext hW r' α hrm] at hd
-                split
-                · next hpos =>
-                  rw [hd]
-                  have : ((x'.natAbs : Nat) : Int) = x' := by omega
-                  rw [this]
-                · next hnpos =>
-                  rw [denM_neg mdd1.tbl hW1 r' α hrm1, hd]
-                  have : x' = -((x'.natAbs : Nat) : Int) := by omega
-                  rw [this, hSneg _ _ (by omega)]
-                  simp
-              · simp only [hxu, if_false] at hl
-                obtain ⟨a, b, c⟩ := hU.ok x rx hl
-                refine ⟨F.ext.mem a, by rw [F.ext.levelOf a]; exact b, ?_⟩
-                intro α hα
-                rw [denM_ext F.ext hW rx α a]
-                exact c α ((F.ext.valid α).mpr hα)
-            obtain ⟨i0, i1, i2, i3⟩ := ih mdd1 _ mb1 out mb' hKrest hP1 F.inv hU1 hr
-            exact ⟨i0, i1, F.ext.trans i2, i3⟩
+          obtain ⟨hinv1, hext1, hU1⟩ := umap_step S L hSneg mdd umap h hU u var succs hB r mdd1 hfoa
+          obtain ⟨i0, i1, i2, i3⟩ := ih mdd1 _ mb1 out mb' hKrest hP1 hinv1 hU1 hr
+          exact ⟨i0, i1, hext1.trans i2, i3⟩
+
+/-- keys of `umap` satisfy `Q` -/
+def UmapKeys (Q : Nat → Prop) (umap : List (Nat × Int)) : Prop :=
+  ∀ x r, umap.lookup x = some r → Q x
+
+/-- how the intended semantics may move with the BDD manager during the loop (the node table
+only grows): on the known nodes nothing changes -/
+def SemMono (Q : Mgr → Nat → Prop) (S : Mgr → Int → MAsg → Bool) (L : Mgr → Nat → Nat)
+    (mb mb1 : Mgr) : Prop :=
+  ∀ x, Q mb x → Q mb1 x ∧ L mb1 x = L mb x ∧ ∀ α, S mb1 (x : Int) α = S mb (x : Int) α
+
+/-- the loop, with an intended semantics that is read off the CURRENT BDD manager -/
+theorem b2mLoop_sound_gen (Q : Mgr → Nat → Prop) (S : Mgr → Int → MAsg → Bool) (L : Mgr → Nat → Nat)
+    (hSneg : ∀ mb x α, x ≠ 0 → S mb (-x) α = !S mb x α)
+    (rm : List Nat) (btv : List (String × MVar))
+    (P : Mgr → Prop) (K : Nat → Prop)
+    (hBdd : ∀ u umap mb var succs mb1, P mb → K u →
+      b2mIntSucc btv u umap mb = (.ok (var, succs), mb1) →
+      P mb1 ∧ SemMono Q S L mb mb1 ∧ Q mb1 u ∧ BddSideOK (S mb1) (L mb1) u umap var succs) :
+    ∀ (ord : List Nat) (mdd : MddMgr) (umap : List (Nat × Int)) (mb : Mgr) (out : B2MOut) (mb' : Mgr),
+      (∀ u, u ∈ ord → rm.contains u = false → K u) → P mb →
+      MInv mdd → UmapOK (S mb) (L mb) mdd umap → UmapKeys (Q mb) umap →
+      b2mLoop rm btv ord mdd umap mb = (.ok out, mb') →
+      P mb' ∧ MInv out.mdd ∧ MExt mdd.tbl out.mdd.tbl ∧ UmapOK (S mb') (L mb') out.mdd out.umap ∧
+      UmapKeys (Q mb') out.umap := by
+  intro ord
+  induction ord with
+  | nil =>
+    intro mdd umap mb out mb' _ hP h hU hQ hr
+    simp only [b2mLoop, Prod.mk.injEq, Except.ok.injEq] at hr
+    obtain ⟨ho, hmb⟩ := hr
+    subst ho hmb
+    exact ⟨hP, h, MExt.refl _, hU, hQ⟩
+  | cons u rest ih =>
+    intro mdd umap mb out mb' hK hP h hU hQ hr
+    have hKrest : ∀ u', u' ∈ rest → rm.contains u' = false → K u' :=
+      fun u' hu' => hK u' (List.mem_cons_of_mem _ hu')
+    unfold b2mLoop at hr
+    split at hr
+    · exact ih mdd umap mb out mb' hKrest hP h hU hQ hr
+    · next hrm =>
+      split at hr
+      · simp at hr
+      · next var succs mb1 hside =>
+        obtain ⟨hP1, hmono, hQu, hB⟩ :=
+          hBdd u umap mb var succs mb1 hP (hK u (by simp) (by simpa using hrm)) hside
+        -- the old entries, read in the new manager
+        have hU' : UmapOK (S mb1) (L mb1) mdd umap := by
+          constructor
+          intro x r hl
+          obtain ⟨a, b, c⟩ := hU.ok x r hl
+          obtain ⟨_, hL, hS⟩ := hmono x (hQ x r hl)
+          exact ⟨a, by rw [hL]; exact b, fun α hα => by rw [hS α]; exact c α hα⟩
+        split at hr
+        · simp at hr
+        · next r mdd1 hfoa =>
+          obtain ⟨hinv1, hext1, hU1⟩ :=
+            umap_step (S mb1) (L mb1) (hSneg mb1) mdd umap h hU' u var succs hB r mdd1 hfoa
+          have hQ1 : UmapKeys (Q mb1) ((u, r) :: umap.filter (fun p => p.1 ≠ u)) := by
+            intro x rx hl
+            rw [lookup_cons_filter] at hl
+            by_cases hxu : x = u
+            · subst hxu; exact hQu
+            · simp only [hxu, if_false] at hl
+              exact (hmono x (hQ x rx hl)).1
+          obtain ⟨i0, i1, i2, i3, i4⟩ := ih mdd1 _ mb1 out mb' hKrest hP1 hinv1 hU1 hQ1 hr
+          exact ⟨i0, i1, hext1.trans i2, i3, i4⟩
 
 theorem assertConsistent_state (m : Mgr) (r : Except Err Unit) (m' : Mgr)
-    (h : assertConsistent m = (r, m')) : m' = m := by
-  unfold assertConsistent at h
+    (h : bddAssertConsistent m = (r, m')) : m' = m := by
+  unfold bddAssertConsistent at h
   dsimp only at h
   split at h
   · cases h; rfl
